@@ -9,7 +9,7 @@ from ..pm import src
 from ..q import FA, call_name, guard_facts, walk_no_nested
 from .C20_reg import _chain_ends_in_raise, compared_literals
 
-TECHNIQUE = "R-REG on the extension dispatch, CFG totality of the JSON encoder, R-WRITERS on HDF5 leaf stores (every leaf passes the None-encoder), R-SIB key parity of the two result dictionaries, type table of structured-array results vs. name-preserving conversion; guard-implied attribute rule on the encoder"
+TECHNIQUE = "R-REG on the extension dispatch, CFG totality of the JSON encoder, R-WRITERS on HDF5 leaf stores (every leaf passes the None-encoder), R-SIB key parity of the two result dictionaries, type table of structured-array results vs. name-preserving conversion; guard-implied attribute rule on the encoder; literal-set dispatch reading, must-pass conversion and HDF5 name-safety guard"
 
 IO = "nessai.utils.io"
 FS = tables.FS
